@@ -38,6 +38,10 @@ def run(chk, repo):
     chk.attempt(a2_a5, chk, repo)
     chk.attempt(a6_a7, chk, repo)
     chk.attempt(groupname_injective, chk, repo, "C13-A7")
+    from ..openpath import OpenPath
+    from .c07 import naming
+    chk.rule("C07-N", "each image group is cached under its own file name (<image file name>.index), so no group is served another file's cache", 3)
+    chk.attempt(naming, chk, OpenPath(repo))
     chk.attempt(a8, chk, repo)
     chk.attempt(a9, chk, repo)
     chk.count("functions", 12)
@@ -87,11 +91,11 @@ def a2_a5(chk, repo):
         ok = isinstance(d, ast.Call) and norm(d.func) == opener and len(d.args) == 2 and norm(d.args[0]) == "mapper" and norm(d.args[1]).replace('"', "'") == f"filenames['{role}']"
         chk.require(ok, "C13-A2", where, f"{var} = {opener}(mapper, filenames[{role!r}])", f"{var} = {short(d, 70) if d is not None else None}: wrong file role for {opener}", key=f"open:{var}")
     ig = flow.single_def("imagery_groups")
-    txt = norm(ig).replace('"', "'") if ig is not None else ""
-    ok = isinstance(ig, ast.Call) and norm(ig.func) == "list" and isinstance(ig.args[0], ast.Call) and norm(ig.args[0].func) == "map" and norm(ig.args[0].args[1]).replace('"', "'") == "filenames['sar_imagery']" \
-        and "open_image" in norm(ig.args[0].args[0])
-    chk.require(ok, "C13-A2", where, "every entry of filenames['sar_imagery'] is opened by open_image, in summary order",
-                f"image groups are {short(ig, 80) if ig is not None else None}: images are dropped, filtered or reordered", key="open:imagery-map", sample={"expr": short(ig, 80) if ig is not None else None})
+    verdict, why = ordered_map_over(repo, op, ig, "filenames['sar_imagery']", "open_image")
+    if verdict is None:
+        raise AnalysisError(f"{where}: image groups are built by {short(ig, 80) if ig is not None else None}: {why}; order/completeness not decided")
+    chk.require(verdict, "C13-A2", where, f"every entry of filenames['sar_imagery'] is opened by open_image, in summary order ({why})",
+                f"image groups are {short(ig, 80) if ig is not None else None}: {why}", key="open:imagery-map", sample={"expr": short(ig, 80) if ig is not None else None})
     # imagery group
     im = flow.single_def("imagery")
     data = None
@@ -121,6 +125,49 @@ def a2_a5(chk, repo):
         right = flow.single_def(right.id)
     ok = isinstance(a, ast.BinOp) and isinstance(a.op, ast.BitOr) and norm(a.left) == "volume_directory.attrs" and isinstance(right, ast.Dict) and [const_str(k) for k in right.keys] == ["reference_document"]
     chk.require(ok, "C13-A5", where, "root attrs = volume_directory.attrs | {'reference_document': ...}", f"root attrs are {short(a, 80) if a is not None else None}", key="open:root-attrs")
+
+
+def ordered_map_over(repo, fi, expr, source_txt, fname, depth=0):
+    """is expr `f` applied to every element of the source list, in order?  -> (True|False|None, why)"""
+    from ..interproc import bind_args, single_return
+    if expr is None or depth > 4:
+        return None, "no definition"
+    flow = Flow(fi)
+    txt = norm(expr).replace('"', "'")
+    if isinstance(expr, ast.Call) and isinstance(expr.func, ast.Name) and expr.func.id in ("list", "tuple") and len(expr.args) == 1:
+        return ordered_map_over(repo, fi, expr.args[0], source_txt, fname, depth + 1)
+    if isinstance(expr, ast.Call) and isinstance(expr.func, ast.Name) and expr.func.id == "map" and len(expr.args) == 2:
+        src = norm(flow.expand(expr.args[1], depth=2)).replace('"', "'")
+        if src != source_txt and norm(expr.args[1]).replace('"', "'") != source_txt:
+            if "[" in src.replace(source_txt, "") or "sorted(" in src or "reversed(" in src or "set(" in src:
+                return False, f"maps over {src}: images are dropped or reordered"
+            return None, f"maps over {src}"
+        return (fname in norm(flow.expand(expr.args[0], depth=2))), f"list(map({fname}, ...)) over {source_txt}"
+    if isinstance(expr, (ast.ListComp, ast.GeneratorExp)) and len(expr.generators) == 1:
+        g = expr.generators[0]
+        src = norm(g.iter).replace('"', "'")
+        if g.ifs:
+            return False, f"comprehension filters the image files ({norm(g.ifs[0])})"
+        if src != source_txt:
+            return (False, f"iterates {src}: images are dropped or reordered") if source_txt in src else (None, f"iterates {src}")
+        return (fname in norm(flow.expand(expr.elt, depth=2))), f"[{fname}(x) for x in {source_txt}]"
+    if isinstance(expr, ast.Call):
+        cs = resolve_callees(repo, fi, expr.func)
+        if len(cs) == 1 and cs[0].func is not None:
+            callee = cs[0].func
+            body_txt = " ".join(norm(st) for st in callee.node.body)
+            if "as_completed" in body_txt:
+                return False, f"{callee.qualname} collects results with as_completed: groups appear in completion order, not in summary order"
+            if "set(" in body_txt or "sorted(" in body_txt:
+                return None, f"{callee.qualname} re-orders"
+            ret = single_return(callee)
+            bound, _ = bind_args(cs[0], expr)
+            srcs = [p for p, v in bound.items() if norm(v).replace('"', "'") == source_txt]
+            fns = [p for p, v in bound.items() if fname in norm(flow.expand(v, depth=2))]
+            if ret is not None and len(srcs) == 1 and len(fns) == 1:
+                return ordered_map_over(repo, callee, ret, srcs[0], fns[0], depth + 1)
+            return None, f"{callee.qualname} is not a single-return map"
+    return None, f"unrecognised form {txt[:60]}"
 
 
 def a6_a7(chk, repo):
